@@ -131,12 +131,17 @@ class Tessellations(ProductSystem):
 
     def axes(self, base):
         return {"size": self.sizes, "pat": [0, 1, 2, 3], "ring": [False, True], "cut": ["inf", "default", "mid", "tight"],
-                "pose": ["none", "quarter", "rot", "shift", "mirror"], "scale": [1.0, 10.0, 0.1]}
+                "pose": ["none", "quarter", "rot", "shift", "mirror"], "scale": [1.0, 10.0, 0.1],
+                "corder": ["asbuilt", "reversed", "interleaved"]}       # order in which the centres are listed (the tessellation is a set property)
 
     def eval_config(self, base, cfg):
         import forsys.tessellation as ft
         nx, ny = cfg["size"]
         pts = pose(centres([base, nx, ny, cfg["pat"]]), cfg["pose"], cfg["scale"])
+        if cfg.get("corder") == "reversed":
+            pts = list(pts)[::-1]
+        elif cfg.get("corder") == "interleaved":
+            pts = list(pts)[::2] + list(pts)[1::2]
         tags = [{"square": "exact_square", "hex": "exact_hex", "hexflat": "exact_hex", "jit": "jittered", "rand": "random", "tri": "planted_triangle"}[base]]
         if cfg["ring"]:
             extra, ex = fsutil.call(ft.add_voronoi_centers, list(pts))
